@@ -127,19 +127,30 @@ def _note(ev):
 
 
 class _WProxy:
-    """a file opened for writing by a traced thread: every write()/close() is a yield point of the scheduler (a `write`
-    raises no audit event, and an in-place writer is only visible between `open(...,'w')` and its writes)"""
+    """a file opened for writing by a traced thread.  A `write` raises no audit event, so the proxy makes the first
+    write after the open, every flush and the close yield points of the scheduler (data reaches the file at flush /
+    close: "reader runs after the writer's replace but before its close" must be explorable), and records them, so
+    that the order of close relative to os.replace is part of the compared trace."""
     def __init__(self, f, path):
         object.__setattr__(self, '_f', f)
         object.__setattr__(self, '_p', path)
+        object.__setattr__(self, '_noted', False)
 
     def write(self, data):
-        _note(('write', self._p))
+        if not self._noted:
+            object.__setattr__(self, '_noted', True)
+            _note(('write', self._p))
         return self._f.write(data)
 
     def writelines(self, lines):
-        _note(('write', self._p))
+        if not self._noted:
+            object.__setattr__(self, '_noted', True)
+            _note(('write', self._p))
         return self._f.writelines(lines)
+
+    def flush(self):
+        _note(('write', self._p))
+        return self._f.flush()
 
     def close(self):
         if not self._f.closed:
@@ -172,6 +183,21 @@ def _open(file, mode='r', *a, **k):
     return f
 
 
+_orig_fdopen = os.fdopen
+
+
+def _fdopen(fd, mode='r', *a, **k):
+    f = _orig_fdopen(fd, mode, *a, **k)
+    if getattr(_tls, 'rec', None) is not None and not getattr(_tls, 'busy', False) and isinstance(mode, str) \
+            and any(ch in mode for ch in 'wax+') and isinstance(fd, int):
+        try:
+            path = os.readlink('/proc/self/fd/%d' % fd)
+        except OSError:
+            path = 'fd:%d' % fd
+        return _WProxy(f, path)
+    return f
+
+
 def install():
     """the audit hook cannot be removed: it is installed once and does nothing for threads without a recorder"""
     if not _STATE['installed']:
@@ -179,6 +205,7 @@ def install():
         os.path.isfile = _isfile
         os.path.exists = _exists
         builtins.open = _open
+        os.fdopen = _fdopen
         _STATE['installed'] = True
 
 
@@ -339,6 +366,10 @@ def call_routine(c, paths, sim=None):
     if r == 'superpose':
         db = superpose(paths['decoy'], paths['ref'], export=bool(c.get('exports', 0)))
         return repr([[round(v, 6) for v in row] for row in db.get('x,y,z')][:50])
+    if r == 'align' and c.get('variant') == 'interface':
+        from pdb2sql.align import align_interface
+        db = align_interface(paths['decoy'], plane=c.get('plane', 'xy'), export=bool(c.get('exports', 0)), cutoff=6.0)
+        return repr([[round(v, 6) for v in row] for row in db.get('x,y,z')][:50])
     if r == 'align':
         db = align(paths['decoy'], export=bool(c.get('exports', 0)))
         return repr([[round(v, 6) for v in row] for row in db.get('x,y,z')][:50])
@@ -407,11 +438,19 @@ def canon_trace(events, roles, cwd, zone_abs, preexisting):
     """audit events -> the alphabet of Spec.C16.Act (one event, one action)"""
     out = []
     mk = set()
+    last_write = None
     for ev in events:
         k = ev[0]
         cp = lambda x: canon_path(x, roles, cwd, zone_abs, preexisting)     # noqa
         if k == 'write':
-            continue                                      # yield point only (no audit event, no model action of its own)
+            # write / flush / close of a file this task has open: one `append` action per uninterrupted run
+            if last_write != ev[1]:
+                out.append(['append', cp(ev[1])])
+            last_write = ev[1]
+            continue
+        if k == 'open' and (isinstance(ev[1], int) or (ev[2] is None and os.path.normpath(os.path.join(cwd, str(ev[1]))) in mk)):
+            continue                                      # parts of mkstemp / fdopen: not actions of their own
+        last_write = None
         if k == 'exists':
             out.append(['exists', cp(ev[1])])
         elif k == 'isfile':
@@ -666,7 +705,8 @@ def agree_spec(c, out, spec):
 
 def nontrivial_key(c, out):
     return [c['op'], c.get('check', True), c.get('zone', 'none'), c.get('exports', 0), c.get('missing', []), c.get('fail'),
-            c.get('layout', 'rel'), c.get('zone_kind', 'str'), c.get('method'), bool(c.get('prior')),
+            c.get('layout', 'rel'), c.get('zone_kind', 'str'), c.get('method'), bool(c.get('prior')), c.get('variant'),
+            os.path.splitext(c['names'][0])[1],
             hashlib.sha1(json.dumps(out['empty']['trace']).encode()).hexdigest()[:10]]
 
 
@@ -691,12 +731,21 @@ def distribution(recs):
 # cases
 # ---------------------------------------------------------------------------------------------------------------
 
-def _names(rng):
+NAME_STYLES = ['pdb', 'pdb', 'pdb', 'noext', 'ent', 'upper', 'mid', 'dots', 'endsb']
+
+
+def _names(rng, style=None):
+    """input file names in the variants users have: x.pdb, no extension, .ent, upper-case .PDB, '.pdb' in the middle,
+    several dots, a name ending in one of the letters of '.pdb' (str.rstrip territory)"""
     stem = lambda: ''.join(rng.choice('abcdefghkmnqrstuvwxyz') for _ in range(rng.randint(3, 7)))     # noqa
     a, b = stem(), stem()
     while b == a:
         b = stem()
-    return [a + '_dec.pdb', b + '_ref.pdb', stem() + rng.choice(['.izone', '.lzone', '.zone', ''])]
+    st = style or rng.choice(NAME_STYLES)
+    def mk(x, tag):
+        return {'pdb': x + '_' + tag + '.pdb', 'noext': 'model_' + x + '_' + tag, 'ent': 'pdb' + x + tag + '.ent', 'upper': x.upper() + tag.upper() + '.PDB',
+                'mid': x + '.pdb.' + tag + '.bak', 'dots': x + '.' + tag + '.v2.pdb', 'endsb': x + tag + 'pdb'}[st]
+    return [mk(a, 'dec'), mk(b, 'ref'), stem() + rng.choice(['.izone', '.lzone', '.zone', ''])]
 
 
 def cases(ctx):
@@ -706,9 +755,9 @@ def cases(ctx):
     out = []
     reps = ctx.scale(1, 4)
 
-    def add(op, **kw):
+    def add(op, name_style=None, **kw):
         c = {'op': 'effects_' + op, 'inputs_seed': rng.randrange(10 ** 9), 'nA': rng.randint(4, 7), 'nB': rng.randint(3, 6),
-             'names': _names(rng)}
+             'names': _names(rng, name_style)}
         if rng.random() < 0.3:
             c['start'] = [rng.randint(-3, 40), rng.randint(1, 90)]
         if c['nA'] == c['nB'] and rng.random() < 0.5:
@@ -780,6 +829,14 @@ def cases(ctx):
         for r, kw in (('lrmsd_fast', dict(check=True, zone='absent')), ('irmsd_fast', dict(check=False, zone='present')),
                       ('lrmsd_sql', dict(exports=2)), ('irmsd_sql', dict(zone='none', exports=2))):
             add(r, method='quaternion', **kw)
+        # output names derived from input names: every name style x export on, for the routines that derive a name
+        for st in ('noext', 'ent', 'upper', 'mid', 'dots', 'endsb'):
+            lay = rng.choice(['rel', 'subdir', 'abs'])
+            add('align', name_style=st, exports=1, layout=lay)
+            add('align', name_style=st, exports=1, variant='interface', plane=rng.choice(['xy', 'xz', 'yz']), layout=rng.choice(['rel', 'subdir']))
+            add('superpose', name_style=st, exports=1, layout=rng.choice(['rel', 'subdir', 'abs']))
+        add('align', exports=1, variant='interface')
+        add('align', exports=0, variant='interface')
     if ctx.thorough:
         for r, kw in (('lrmsd_fast', dict(check=True, zone='absent')), ('irmsd_fast', dict(check=True, zone='absent')),
                       ('irmsd_fast', dict(check=True, zone='present')), ('lrmsd_sql', dict(exports=2)), ('irmsd_sql', dict(zone='present', exports=2)),
@@ -1041,7 +1098,7 @@ def _explore_child(spec_path):
                     roles = role_map(ci, pi, wd)
                     roles = {k3: (v3 + str(i) if v3 in ('decoy', 'out1', 'out2') else v3) for k3, v3 in roles.items()}
                     tr = canon_trace(s.events[i], roles, wd, os.path.join(wd, pair['zone_name']), {os.path.join(wd, k3) for k3 in before})
-                    tr = [[x if x != 'tmp' else 'tmp%d' % i for x in e] for e in tr]
+                    tr = [[x if x != 'tmp' else 'tmp%d' % i for x in e] for e in tr if e[0] != 'append']
                     per_task.append(tr)
                 s.per_task = per_task
                 # order of *visible canonical* events: audit events that were dropped by canon_trace (fdopen, the os.open
